@@ -3,6 +3,7 @@ import json
 import os
 import shutil
 import subprocess
+import time
 
 import lib
 import pygen
@@ -10,6 +11,7 @@ import cfgcommon as cc
 from c06 import CLASS_FILE, run_cli, latest_json
 import c20mcp
 import c20fail
+import c20lists
 
 # set to True once the report is deterministic (C05 repairs): then sections are compared exactly, order included
 STRICT_ORDER = True
@@ -260,6 +262,11 @@ def main(tier):
         # ---------- (c') several analyses FAIL in one run (harness/c20fail.py): race freedom, "together = apart" and a stable failure report ----------
         stats["failing"] = c20fail.run(ck, root, race_bin, canon, first_diff, thorough)
         stats["race_runs"] += stats["failing"]["combined_runs"] + stats["failing"]["apart_runs"]
+        # ---------- (c'') projects whose configuration file sets every list-valued key (harness/c20lists.py): each analysis goroutine loads it ----------
+        t_ = time.time()
+        stats["race_list_keys"] = c20lists.race_stage(ck, root, race_bin, thorough)
+        stats["race_list_keys"]["seconds"] = round(time.time() - t_, 1)
+        stats["race_runs"] += stats["race_list_keys"]["runs"]
     ck.samples = [{"project_files": files, "selects": ["complexity", "deadcode", "clones", "cbo", "lcom", "deps"]},
                   {"mcp_tools": c20mcp.TOOLS, "mcp_scenarios": [x["name"] for x in stats.get("mcp_scenarios", [])],
                    "mcp_example": {"tool": "check_complexity", "arguments": {"path": "<project>", "min_complexity": 2, "output_mode": "full"},
